@@ -9,11 +9,13 @@
        g = lin - K alpha on the active set, the box, sum(alpha), the bound flags, leaves every other
        variable, the permutation and the data alone, and does not decrease the dual objective when
        g_i >= g_j (floor included; no definiteness assumption is needed for this direction);
-     * by induction over ALL operation histories of the solver without shrinking: invariants + monotone
-       objective;
+     * one BoxConstrainedProblem::updateSMO step (both the single-variable and the two-variable form) keeps
+       the same invariants and does not decrease the objective, for every symmetric K with non-negative diagonal;
+     * by induction over ALL operation histories of the solver without shrinking, for both problem types:
+       invariants + monotone objective;
      * the analytic sub-solvers of the box-constrained problem: results stay in the box, the 1-D
-       solver never loses objective when Q >= 1e-12 or Q = 0 (and the faithful model DOES lose objective
-       for 0 < Q < 1e-12: C08_edge_solver_gain_refuted); the 2-D solver, as repaired by /repo commit
+       solver (as repaired: only Q <= 0 counts as flat; finding edge1d:tiny-Q) never loses objective for
+       ANY curvature and returns the exact maximiser on the interval when Q > 0; the 2-D solver, as repaired by /repo commit
        bc5f2886 (finding F3: relative rank test, current point kept when no edge improves), never loses
        objective for ANY point in the box, gradient and 2x2 block with non-negative diagonal
        (C08_box2d_gain_nonneg, full statement) and in its edge branch returns a point at least as good as
@@ -23,14 +25,15 @@
        from the edge gradient (given Inv_edge, Inv_grad on the active set, shrunk variables at a bound).
    NOT proved (kept as monitored + step-wise corresponded on every run): that updateGradientEdge keeps
    Inv_edge, that flipCoordinates / the shrink loop keep the invariants, the induction over histories
-   WITH shrinking, and the invariants of the box-constrained step (its sub-solvers are covered below).
+   WITH shrinking.
    Full statement wanted (C08_every_history): forall kind shr ops s, Inv s -> wf_run s ops ->
-   Inv (run kind shr s ops) /\ obj s <= obj (run ...); proved: C08_every_history_noshrink for kind = SvmProblem.
+   Inv (run kind shr s ops) /\ obj s <= obj (run ...); proved: shr = false for both problem kinds
+   (C08_every_history_noshrink for SvmProblem, C08_every_history_noshrink_box for BoxConstrainedProblem).
    COMPARED / MONITORED on every run (tools/c08.py), not proved: the float instantiation of the same
    model agrees with the real solver step by step; invariants re-evaluated on the implementation's
    snapshots with an independent kernel matrix; float drift. *)
 From Coq Require Import QArith List.
-From SharkV Require Import C08Model C08Defs C08Aux C07Proofs C08Proofs C08ProofsBox C08ProofsShrink.
+From SharkV Require Import C08Model C08Defs C08Aux C07Proofs C08Proofs C08ProofsBox C08ProofsBoxStep C08ProofsShrink.
 Import ListNotations.
 Open Scope Q_scope.
 
@@ -61,21 +64,28 @@ Theorem C08_every_history_noshrink :
 Proof. exact run_noshrink. Qed.
 Print Assumptions C08_every_history_noshrink.
 
+(* full statement for the 1-D sub-solver (as repaired: only Q <= 0 is treated as flat): from any point of
+   the interval, for every gradient and EVERY curvature, the result stays in the interval and the objective
+   does not decrease; for Q > 0 the result is the exact maximiser on the interval. *)
 Theorem C08_edge_solver_in_box_and_gain :
   forall a g Q L U : QArith_base.Q, L <= a -> a <= U ->
   (L <= solve_edge qops a g Q L U /\ solve_edge qops a g Q L U <= U) /\
-  ((qthr <= Q \/ Q == 0) -> 0 <= gain1 g Q (solve_edge qops a g Q L U - a)).
+  0 <= gain1 g Q (solve_edge qops a g Q L U - a) /\
+  (0 < Q -> forall x, L <= x -> x <= U -> gain1 g Q (x - a) <= gain1 g Q (solve_edge qops a g Q L U - a)).
 Proof.
-  intros a g Q L U H1 H2. split.
+  intros a g Q L U H1 H2. split; [|split].
   - apply solve_edge_in_box. apply Qle_trans with a; assumption.
-  - intros H. apply solve_edge_gain_nonneg; assumption.
+  - apply solve_edge_gain_nonneg_all; assumption.
+  - intros HQ. apply solve_edge_optimal; assumption.
 Qed.
 Print Assumptions C08_edge_solver_in_box_and_gain.
 
-Theorem C08_edge_solver_gain_refuted : exists a g Q L U : QArith_base.Q,
-  L <= a /\ a <= U /\ 0 < Q /\ Q < qthr /\ gain1 g Q (solve_edge qops a g Q L U - a) < 0.
-Proof. exact solve_edge_gain_refuted. Qed.
-Print Assumptions C08_edge_solver_gain_refuted.
+(* regression: the former test Q < 1e-12 lost objective for 0 < Q < 1e-12 (finding edge1d:tiny-Q, repaired) *)
+Theorem C08_edge_solver_old_threshold_refuted : exists a g Q L U : QArith_base.Q,
+  L <= a /\ a <= U /\ 0 < Q /\ Q < qthr /\
+  gain1 g Q (old_solve_edge a g Q L U - a) < 0 /\ 0 <= gain1 g Q (solve_edge qops a g Q L U - a).
+Proof. exact solve_edge_old_threshold_refuted. Qed.
+Print Assumptions C08_edge_solver_old_threshold_refuted.
 
 Theorem C08_box2d_in_box : forall ai aj gi gj Qii Qij Qjj Li Ui Lj Uj : QArith_base.Q,
   Li <= Ui -> Lj <= Uj ->
@@ -103,6 +113,34 @@ Theorem C08_box2d_edges_best : forall ai aj gi gj Qii Qij Qjj Li Ui Lj Uj : QAri
   forall c, In c (edges2d qops ai aj gi gj Qii Qij Qjj Li Ui Lj Uj) -> G c <= G r.
 Proof. exact box2d_edges_best. Qed.
 Print Assumptions C08_box2d_edges_best.
+
+(* one BoxConstrainedProblem::updateSMO step (i = j: solveQuadraticEdge; i <> j: solveQuadratic2DBox; gradient
+   update over the active set; flags): for every symmetric K with non-negative diagonal, every consistent
+   state and every working set inside the active set *)
+Theorem C08_box_step_keeps_invariants_and_objective :
+  forall (n : nat) (K0 : nat -> nat -> Q), Ksym K0 -> (forall p, 0 <= K0 p p) ->
+  forall (s : qst) (i j : nat),
+  (i < active s)%nat -> (j < active s)%nat -> (active s <= n)%nat ->
+  Inv_grad n K0 s -> Inv_box n s -> Inv_flags n s ->
+  let s' := box_update qops K0 s i j in
+  Inv_grad n K0 s' /\ Inv_box n s' /\ Inv_flags n s' /\
+  obj n K0 s <= obj n K0 s' /\
+  (forall a, a <> i -> a <> j -> alpha s' a = alpha s a) /\
+  lin s' = lin s /\ lo s' = lo s /\ hi s' = hi s /\ perm s' = perm s /\ active s' = active s /\
+  unshr s' = unshr s /\ gedge s' = gedge s /\ (forall a, ~ (a < active s)%nat -> grad s' a = grad s a).
+Proof. exact box_update_preserves. Qed.
+Print Assumptions C08_box_step_keeps_invariants_and_objective.
+
+(* every history of the box-constrained solver with shrinking switched off *)
+Theorem C08_every_history_noshrink_box :
+  forall (n : nat) (K0 : nat -> nat -> Q), Ksym K0 -> (forall p, 0 <= K0 p p) ->
+  forall (ops : list (op Q)) (s : qst),
+  Inv_noshrink n K0 s -> wf_run_box n K0 s ops ->
+  let s' := runQ n K0 false false s ops in
+  Inv_noshrink n K0 s' /\ obj n K0 s <= obj n K0 s' /\
+  lin s' = lin s /\ lo s' = lo s /\ hi s' = hi s /\ perm s' = perm s.
+Proof. exact run_noshrink_box. Qed.
+Print Assumptions C08_every_history_noshrink_box.
 
 (* a variable removed by the shrink test cannot take part in an improving feasible step *)
 Theorem C08_shrink_sound_svm : forall (s : qst) (m a : nat),
